@@ -43,5 +43,7 @@ Where(ops, k) == IF k = 0 THEN "src" ELSE IF ops[k].op = "remove" THEN "gone" EL
 SeqOK(ops) == \A k \in 1..Len(ops) : Where(ops, k - 1) # "gone" /\ (ops[k].op = "remove" \/ ops[k].to # Where(ops, k - 1))
 OpSeqs == {s \in UNION {[1..m -> OpSet] : m \in 2..3} : SeqOK(s)}
 Seqs == {[k |-> "upseq", kind |-> kd, n |-> n, ops |-> s] : kd \in Kinds, n \in {1, 2}, s \in OpSeqs}
-ASSUME Emit(SetToSeq(AllPlain \cup OneOdd \cup Stale \cup XDev \cup RelPath \cup DestFile) \o SetToSeq(Partial) \o SetToSeq(Seqs))
+\* one path, two texts: parsed and copied, rewritten to list another file, parsed again and copied elsewhere
+Reparse == {[k |-> "upreparse", kind |-> kd] : kd \in Kinds}
+ASSUME Emit(SetToSeq(AllPlain \cup OneOdd \cup Stale \cup XDev \cup RelPath \cup DestFile) \o SetToSeq(Partial) \o SetToSeq(Seqs) \o SetToSeq(Reparse))
 =============================================================================
